@@ -47,6 +47,11 @@ Lemma eval_e_S : forall (ae : N -> bool) (flag : bool) (dl : list (N * list str)
               end
           | _ => None
           end
+      | EJoin sep items =>
+          match eval_es ae flag dl tt bt n ce rt mu k sup r items with None => None | Some vs =>
+          match eval_e ae flag dl tt bt n ce rt mu k sup r sep with None => None | Some vsep =>
+            Some (join_val rt vsep vs)
+          end end
       end.
 Proof. reflexivity. Qed.
 
@@ -246,6 +251,28 @@ Proof.
   subst a2 b2. reflexivity.
 Qed.
 
+Lemma join_str_rel : forall s1 s2 l1 l2, srel s1 s2 -> Forall2 srel l1 l2 -> srel (join_str s1 l1) (join_str s2 l2).
+Proof.
+  intros s1 s2 l1 l2 Hs H. induction H as [|x y l1 l2 Hx Hl IH]; [apply srel_nil|].
+  cbn [join_str]. destruct Hl as [|x' y' l1' l2' Hx' Hl']; [exact Hx|].
+  apply srel_app; [exact Hx|]. apply srel_app; [exact Hs|exact IH].
+Qed.
+
+Lemma join_rel : forall sep1 sep2 vs1 vs2, vrel sep1 sep2 -> Forall2 vrel vs1 vs2 ->
+  vrel (join_val true sep1 vs1) (join_val false sep2 vs2).
+Proof.
+  intros sep1 sep2 vs1 vs2 Hs Hv. unfold join_val. cbn [andb].
+  assert (Hesc : Forall2 srel (map esc_str vs1) (map raw vs2)).
+  { induction Hv as [|a b l1 l2 Hab Hl IH]; [constructor|]. cbn [map]. constructor; [now apply esc_rel|exact IH]. }
+  destruct (is_mk sep1 || existsb is_mk vs1) eqn:E.
+  - cbn [vrel]. apply join_str_rel; [now apply esc_rel|exact Hesc].
+  - apply orb_false_iff in E as [E1 E2]. cbn [vrel]. clear Hesc.
+    assert (Hraw : map raw vs1 = map raw vs2).
+    { induction Hv as [|a b l1 l2 Hab Hl IH]; [reflexivity|]. cbn [existsb] in E2. apply orb_false_iff in E2 as [Ea El].
+      cbn [map]. rewrite (IH El). f_equal. destruct a as [x|x], b as [y|y]; cbn in Hab, Ea; try contradiction; try discriminate. now subst. }
+    rewrite Hraw. destruct sep1 as [x|x], sep2 as [y|y]; cbn in Hs, E1; try contradiction; try discriminate. now subst.
+Qed.
+
 Lemma lookup_rel : forall r1 r2 x, erel r1 r2 -> vrel (lookup r1 x) (lookup r2 x).
 Proof.
   intros r1 r2 x H. induction H as [|[y1 v1] [y2 v2] r1 r2 [Hy Hv] Hr IH]; [reflexivity|].
@@ -360,7 +387,7 @@ Section C16.
     { repeat split; repeat intro; exact I. }
     repeat split.
     - (* expressions *)
-      intros ce mu k1 k2 sup r1 r2 e Hce Hmu Hk Hsup Hr He. destruct e as [x|s|a b|f a args|c a b|m args| |].
+      intros ce mu k1 k2 sup r1 r2 e Hce Hmu Hk Hsup Hr He. destruct e as [x|s|a b|f a args|c a b|m args| | |sep items].
       + unf. now apply lookup_rel.
       + unf. reflexivity.
       + cbn [oke16 ok_e] in He. fold oke16 in He. apply andb_true_iff in He as [Ha Hb]. unf.
@@ -402,6 +429,10 @@ Section C16.
         pose proof (IHss ce' mu None None (Some rest) r1 r2 b0 Hce' Hmu I Hrest Hr Hb) as Rss. both Rss as x1 x2.
         destruct x1 as [[o1 r1'] m1], x2 as [[o2 r2'] m2]. cbn in Rss. destruct Rss as (Ho & _).
         cbn. exact Ho.
+      + cbn [oke16 ok_e] in He. fold oke16 in He. apply andb_true_iff in He as [Hsep Hit]. unf.
+        pose proof (IHes ce mu k1 k2 sup r1 r2 items Hce Hmu Hk Hsup Hr Hit) as Rs. both Rs as vs1 vs2.
+        pose proof (IHe ce mu k1 k2 sup r1 r2 sep Hce Hmu Hk Hsup Hr Hsep) as Ra. both Ra as s1 s2.
+        cbn [orel]. now apply join_rel.
     - (* expression lists *)
       intros ce mu k1 k2 sup r1 r2 es Hce Hmu Hk Hsup Hr He. destruct es as [|e es].
       + unf. constructor.
@@ -668,7 +699,7 @@ Section C15.
     { repeat split; repeat intro; discriminate. }
     repeat split.
     - intros ce mu k sup r e v Hce Hmu Hk Hsup Hr He E.
-      destruct e as [x|s|a b|f a args|c a b|m args| |]; unf_in E.
+      destruct e as [x|s|a b|f a args|c a b|m args| | |sep items]; unf_in E.
       + injection E as <-. now apply lookup_ok.
       + injection E as <-. exact I.
       + cbn [oke15 ok_e] in He. fold oke15 in He. apply andb_true_iff in He as [Ha Hb].
@@ -715,6 +746,14 @@ Section C15.
         destruct (ev_ss n ce' true mu None (Some rest) r b0) as [[[o r'] m']|] eqn:Ess; [|discriminate].
         injection E as <-.
         destruct (IHss ce' mu None (Some rest) r b0 _ Hce' Hmu I Hrest Hr Hb Ess) as (Ho & _). exact Ho.
+      + cbn [oke15 ok_e] in He. fold oke15 in He. apply andb_true_iff in He as [Hsep Hit].
+        destruct (ev_es n ce true mu k sup r items) as [vs|] eqn:Es; [|discriminate].
+        destruct (ev_e n ce true mu k sup r sep) as [vsep|] eqn:Ea; [|discriminate].
+        injection E as <-. unfold join_val. destruct (true && (is_mk vsep || existsb is_mk vs)); [|exact I].
+        cbn [MkClean]. apply Clean_join_str.
+        * apply Clean_esc_str. exact (IHe _ _ _ _ _ _ _ Hce Hmu Hk Hsup Hr Hsep Ea).
+        * pose proof (IHes _ _ _ _ _ _ _ Hce Hmu Hk Hsup Hr Hit Es) as Hvs. clear Es.
+          induction Hvs as [|v l Hv Hl IHl]; [constructor|]. cbn [map]. constructor; [now apply Clean_esc_str|exact IHl].
     - intros ce mu k sup r es vs Hce Hmu Hk Hsup Hr He E. destruct es as [|e es]; unf_in E.
       + injection E as <-. constructor.
       + cbn [forallb] in He. apply andb_true_iff in He as [He Hes].
